@@ -1,7 +1,7 @@
 /-
-  C36 — records of the two newest older formats (19, 20): `compat.migrate_flow`'s loop applied with the converters'
-  field surgery of Model/C38_Conv (convert_19_20, convert_20_21), followed by the same type dispatch and shape
-  requirements as for current-version records.  Older formats stay with the parameter (`defer`).
+  C36 — records of the older integer formats 5 … 20: `compat.migrate_flow`'s loop applied with the converters' field
+  surgery of Model/C38_Conv (convert_5_6 … convert_20_21), followed by the same type dispatch and shape requirements as for
+  current-version records.  Format 4 (draws uuids) and the tuple-era formats stay with the parameter (`defer`).
 
   The loop reads `flow_data.get(b"version", flow_data.get("version"))` on every iteration while the converters write the
   str key: a record whose version comes from the BYTES key is converted once and then refused
@@ -36,32 +36,100 @@ inductive Conv where
   | current (ty : Bytes) (d : List (Value × Value))   -- converted to the current format, registered type: set_state decides
   | notModelled
 
-/-- the chain from format `n` (19 or 20) to the current one -/
-def chainFrom (n : Int) (d : Dict) : Option Dict :=
-  if n = 19 then chain19 d else if n = 20 then conv_20_21 d else none
+/-- keys whose value the converters test for truthiness (`if x`, `x or []`, `c.get(name) and …`); the model's `truthy` does
+    not know whether a float is zero, so a float there puts the record outside the transcription -/
+def truthKeys : List Bytes :=
+  [s "via", s "alpn_offers", s "cipher_list", s "marked", s "peername", s "sockname", s "address", s "is_replay",
+   s "alpn_proto_negotiated", s "cipher_name", s "clientcert", s "cert"]
 
-def firstConv (n : Int) (d : Dict) : Option Dict :=
-  if n = 19 then conv_19_20 d else if n = 20 then conv_20_21 d else none
+mutual
+def floatAtTruthKey : Value → Bool
+  | .list l => floatInList l
+  | .dict kvs => floatInPairs kvs
+  | _ => false
+def floatInList : List Value → Bool
+  | [] => false
+  | v :: t => floatAtTruthKey v || floatInList t
+def floatInPairs : List (Value × Value) → Bool
+  | [] => false
+  | (k, v) :: t =>
+    (match k, v with
+      | .str u, .float _ => truthKeys.contains u
+      | _, _ => false) || floatAtTruthKey v || floatInPairs t
+end
 
-/-- `Flow.from_state(migrate_flow(record))` for a record whose first-iteration version is the int 19 or 20 -/
+/-- the two converter branches C38_Conv leaves out: 11→12 with websocket metadata (process-global state) and 13→14 when it
+    has to add 1 to a FLOAT request timestamp -/
+def unmodelledBranch (n : Nat) (d : Dict) : Bool :=
+  if n = 11 then
+    match (dget d (s "metadata")).bind asDict with
+    | some md => dhas md (s "websocket") || dhas md (s "websocket_handshake")
+    | none => false
+  else if n = 13 then
+    match dget d (s "response") with
+    | some (.dict resp) =>
+      (match dget resp (s "timestamp_start") with
+        | some .null =>
+          (match (dget d (s "request")).bind asDict with
+            | some req => (match dget req (s "timestamp_end") with | some (.float _) => true | _ => false)
+            | none => false)
+        | _ => false)
+    | _ => false
+  else false
+
+/-- the converter that reads integer format `n` (5 … 20) -/
+def stepConv (n : Nat) : Option (Dict → Option Dict) :=
+  match convOld n with
+  | some f => some f
+  | none => conv n
+
+inductive ChainRes where
+  | done (d : Dict)          -- reached the current format
+  | raised                   -- a converter raised (KeyError / TypeError / AttributeError)
+  | outside                  -- a branch the transcription leaves out
+
+/-- `converters[n]`, `converters[n+1]`, … up to the current format -/
+def chainUp : Nat → Nat → Dict → ChainRes
+  | 0, _, _ => .outside
+  | f + 1, n, d =>
+    if n = 21 then .done d
+    else if unmodelledBranch n d then .outside
+    else match stepConv n with
+      | none => .outside
+      | some c =>
+        match c d with
+        | none => .raised
+        | some d' => chainUp f (n + 1) d'
+
+/-- the first converter only (what runs before a stale bytes `version` key stops the loop) -/
+def firstStep (n : Nat) (d : Dict) : ChainRes :=
+  if unmodelledBranch n d then .outside
+  else match stepConv n with
+    | none => .outside
+    | some c => match c d with | none => .raised | some d' => .done d'
+
+/-- `Flow.from_state(migrate_flow(record))` for a record whose first-iteration version is an int 5 … 20 -/
 def convert (kvs : List (Value × Value)) : Conv :=
   if Gen.C38.current ≠ .int 21 then .notModelled else
   match pyDict kvs with
   | none => .notModelled
   | some d =>
+    if floatInPairs d then .notModelled else
     let fromBytes := (dictGet kvs (isBytesKey bVersion)).isSome
     match rawVersion kvs with
     | some (.int n) =>
-      if n = 19 ∨ n = 20 then
+      if 5 ≤ n ∧ n ≤ 20 then
         if fromBytes then
           -- one converter runs, then the stale bytes key shows the same version again
-          match firstConv n d with
-          | none => .refusedX
-          | some _ => .refusedV
+          match firstStep n.toNat d with
+          | .outside => .notModelled
+          | .raised => .refusedX
+          | .done _ => .refusedV
         else
-          match chainFrom n d with
-          | none => .refusedX
-          | some d' =>
+          match chainUp 17 n.toNat d with
+          | .outside => .notModelled
+          | .raised => .refusedX
+          | .done d' =>
             match typeGate d' with
             | .rejectV => .refusedV
             | .rejectX => .refusedX
@@ -86,5 +154,15 @@ def converted {α : Type} (env : Env α) : Env α :=
           else env.fromState i v
         | .notModelled => env.fromState i v
       | _, _ => (shaped env).fromState i v }
+
+/-- what the transcription (dispatch, shape, converter chain 5 … 20) requires of a record that becomes a flow -/
+def AcceptableC (v : Value) : Prop :=
+  (gate v ≠ .defer → Acceptable v) ∧
+  (gate v = .defer → ∀ kvs, v = .dict kvs →
+    (match convert kvs with
+      | .refusedV => False
+      | .refusedX => False
+      | .current ty d => shape ty d ≠ .bad
+      | .notModelled => True))
 
 end MitmVerif.C36
